@@ -8,6 +8,8 @@ require (
 )
 
 require (
+	github.com/eknkc/basex v1.0.1 // indirect
+	go.yaml.in/yaml/v4 v4.0.0-rc.4 // indirect
 	golang.org/x/sys v0.43.0 // indirect
 	golang.org/x/text v0.36.0 // indirect
 	google.golang.org/protobuf v1.36.11 // indirect
